@@ -4,6 +4,7 @@ pub mod exec;
 pub mod explore;
 pub mod facade;
 pub mod json;
+pub mod mutcoll;
 pub mod ops;
 pub mod runner;
 pub mod slab;
